@@ -229,7 +229,8 @@ fn raw_under_clock<'e>(
 
 #[allow(clippy::too_many_arguments)]
 fn validity_case(cfg: &Config, alg: Algorithm, a: &[u32], or: Range<usize>, b: &[u32], nr: Range<usize>, all_k: bool, entry: u8, out: &mut Local) {
-    let far = far_deadline();
+    // dummy Instant (the virtual clock decides): far future or past, by case
+    let far = dummy_deadline(a.len() + b.len() + or.len());
     let eq = |o: usize, n: usize| a[o] == b[n];
     let ctx = |k: Option<u64>| {
         format!(
